@@ -266,6 +266,43 @@ func init() {
 						if !ok {
 							w.Violate("C07/discovery-reply-differs-from-local-tree", "discovery reply to %s lists\n%s\nthe application built (at that time)\n%s", r.p.Name, got, d.snaps[lo].tree)
 						}
+						// what a peer was told before it asked holds in the answer: an entity announced as
+						// added to this peer before its read was handled is listed (unless its removal has
+						// begun by then), one announced as removed is not (unless it is being added again)
+						listed := map[string]bool{}
+						for _, el := range strings.Split(gotEnts, "\n") {
+							if strings.HasPrefix(el, "entity ") {
+								listed[strings.SplitN(el[len("entity "):], " ", 2)[0]] = true
+							}
+						}
+						for _, op := range d.ops {
+							var told uint64
+							for _, sn := range r.p.Conn.Out {
+								if sn.OpSeq == op.invoke && sn.Task == op.task && Classifier(sn) == "notify" && sn.D != nil && sn.D.Payload.Cmd[0].NodeManagementDetailedDiscoveryData != nil {
+									told = sn.Seq
+								}
+							}
+							if told == 0 || told >= del.Begin {
+								continue
+							}
+							ent := fmtUints(op.ent.Addr)
+							superseded := false
+							for _, o2 := range d.ops {
+								if o2 != op && fmtUints(o2.ent.Addr) == ent && o2.invoke > op.invoke && o2.invoke < del.End {
+									superseded = true
+								}
+							}
+							if superseded {
+								continue
+							}
+							w.Probe("c07-read-after-announcement-checked")
+							if op.kind == "add-entity" && !listed[ent] {
+								w.Violate("C07/announced-entity-missing-in-later-reply", "%s was told at %d that entity %s was added, its discovery read handled [%d,%d] is answered without it:\n%s", r.p.Name, told, ent, del.Begin, del.End, got)
+							}
+							if op.kind == "remove-entity" && listed[ent] {
+								w.Violate("C07/removed-entity-listed-in-later-reply", "%s was told at %d that entity %s was removed, its discovery read handled [%d,%d] still lists it:\n%s", r.p.Name, told, ent, del.Begin, del.End, got)
+							}
+						}
 					}
 					if n != 1 {
 						w.Violate("C07/discovery-read-replies", "discovery read got %d replies", n)
